@@ -56,6 +56,8 @@ def run_case(case, ctx):
 #  - nn_tucker_hals passes the outer n_iter_max to its inner FISTA/active-set core solver (so sweeps depend on the budget)
 #  - cmtf has no random_state: its SVD init draws from the global generator when rank exceeds a mode size (avoided below)
 NO_PREFIX = {"nn_tucker_hals"}
+# algorithms whose reported relative error is invariant to the unit of the data on the reference tree (see DESIGN 6.3 for the others)
+UNIT_FREE = {"parafac", "tucker", "parafac2", "tr_als", "cmtf", "nn_parafac", "nn_parafac_hals", "nn_tucker", "nn_tucker_hals", "randomised_parafac"}   # constrained CP has absolute penalty parameters: not unit-free by design
 
 
 def _run_case(case, ctx):
@@ -64,6 +66,16 @@ def _run_case(case, ctx):
     dt = "float64"
     eps = tol.eps_of(dt)
     data = decomp.make_data(rs, algo, dt)
+    # data recorded in very small or very large units: a relative error must not depend on them (no absolute threshold may enter)
+    unit = float(gen.choice(rs, [1.0] * 6 + [1e-18, 1e12])) if data["cls"].split("*")[0] != "integer" and algo in UNIT_FREE else 1.0
+    if unit != 1.0:
+        data = dict(data, cls=data["cls"] + "*unit%g" % unit)
+        if data["kind"] == "tensor":
+            data["X"] = data["X"] * unit
+        elif data["kind"] == "slices":
+            data["slices"] = [s_ * unit for s_ in data["slices"]]
+        else:
+            data["X"], data["M"] = data["X"] * unit, data["M"] * unit
     rank = decomp.pick_rank(rs, algo, data)
     if algo == "cmtf":
         rank = min(rank, min(data["shape"][0]), data["shape"][1][1])
